@@ -18,7 +18,8 @@ Alphabet ==
    C("convert", "m1", "mania", "-"), C("convert", "m5", "mania", "-"), C("calc", "m4", "I", "-"),
    \* the same objects under other difficulty values (same size, maybe the same address), and a builder value that is reused
    \* with other mods after it has calculated once
-   C("convert", "m6", "mania", "-"), C("rcalc", "m1", "N", "-"), C("rcalc", "m1", "T", "-")}
+   C("convert", "m6", "mania", "-"), C("rcalc", "m1", "N", "-"), C("rcalc", "m1", "T", "-"),
+   C("rperf", "m1", "N", "-"), C("rperf", "m1", "T", "-")}
   \cup (IF Wide THEN {C("strains", "m1", "B", "-"), C("convert", "m5", "taiko", "-"), C("calc", "m1", "B", "-"),
                       C("attrs", "m2", "B", "-"), C("bpm", "m2", "-", "-"), C("gnext", "m3", "B", "h5"), C("gnext", "m4", "A", "h6")} ELSE {})
 Handles == {"h1", "h2", "h3", "h4", "h5", "h6"}
